@@ -365,6 +365,101 @@ def interrupted_runs(ctx, d):
                      {"space_per_file": k, "complete_trace_bytes": L, "chains": chains, "seed": seed, "outcomes": list(res), "trace_holds": have if isinstance(have, str) else {str(c): n for c, n in have.items()}, "input": open(in_file).read()})
 
 
+def killed_and_rewritten_runs(ctx, d):
+    """(a) a run killed (SIGKILL) while it is sampling: whatever is at the trace path afterwards must be rejected by the summary
+    commands (nothing of the run's trace has been written yet); (b) a run that re-writes an existing complete trace of an EARLIER
+    run and runs out of space: the summary commands must fail or see the new run's complete trace, not the earlier run's."""
+    import signal
+    import subprocess
+    import sys
+    import time
+    from concurrent.futures import ThreadPoolExecutor
+
+    in_file = runs.write_input(os.path.join(d, "krun.tsv"), runs.make_rows(ctx.rng, 3, 2, depth=(10, 30)))
+    env = runs.base_env("0")
+    seed = ctx.rng.randrange(1, 10**6)
+
+    def kill_one(chains):
+        out_dir = os.path.join(d, "krun_kill_%d" % chains)
+        os.makedirs(out_dir, exist_ok=True)
+        out = os.path.join(out_dir, "trace.pkl.gz")
+        code = ("import sys\nfrom phyclone.run import run\nrun(sys.argv[1], sys.argv[2], burnin=1, num_iters=10**7, num_particles=4, seed=%d, num_chains=%d, print_freq=1, grid_size=11, density='binomial')\n" % (seed, chains))
+        p = subprocess.Popen([sys.executable, "-u", "-c", code, in_file, out], env=env, stdout=subprocess.PIPE, stderr=subprocess.STDOUT, text=True)
+        t0, seen = time.time(), 0
+        try:
+            while time.time() - t0 < 240:
+                line = p.stdout.readline()
+                if not line:
+                    break
+                if "iter:" in line and "chain" in line:
+                    seen += 1
+                    if seen >= 12 * chains:
+                        break
+        finally:
+            p.send_signal(signal.SIGKILL)
+            p.wait()
+        res = None
+        if seen and os.path.exists(out):
+            res = _reader_outcomes(out, runs.tmpdir("C20_krun_read_%d_%d" % (os.getpid(), chains)))
+        return {"chains": chains, "seen": seen, "exists": os.path.exists(out), "res": res}
+
+    def full(out_dir, sd, limit=10**9):
+        os.makedirs(out_dir, exist_ok=True)
+        out = os.path.join(out_dir, "trace.pkl.gz")
+        p = subprocess.run([sys.executable, "-c", _CHILD, in_file, out, str(limit), str(sd), "2"], env=env, capture_output=True, text=True, timeout=900)
+        return out, p.returncode
+
+    def rewrite_all():
+        shared0 = os.path.join(d, "krun_rewrite_0")
+        out_a, rc_a = full(shared0, seed)
+        ref_b, rc_b = full(os.path.join(d, "krun_rewrite_ref"), seed + 1)
+        if rc_a != 0 or rc_b != 0 or not os.path.exists(out_a) or not os.path.exists(ref_b):
+            return None
+        canon_a = runs.canon_results(runs.read_trace(out_a))
+        canon_b = runs.canon_results(runs.read_trace(ref_b))
+        L = os.path.getsize(ref_b)
+        outs = []
+        for j, k in enumerate((5, L // 2, L - 20)):
+            shared = os.path.join(d, "krun_rewrite_%d" % (j + 1))
+            os.makedirs(shared, exist_ok=True)
+            shutil.copy(out_a, os.path.join(shared, "trace.pkl.gz"))
+            out, rc = full(shared, seed + 1, limit=k)
+            rec = {"k": k, "L": L, "rc": rc, "res": None, "which": None}
+            if os.path.exists(out):
+                rec["res"] = _reader_outcomes(out, runs.tmpdir("C20_rewrite_read_%d_%d" % (os.getpid(), k)))
+                if not all(o.startswith("E:") for o in rec["res"]):
+                    try:
+                        got = runs.canon_results(runs.read_trace(out))
+                    except Exception:  # noqa: BLE001
+                        got = None
+                    rec["which"] = "new-complete" if got == canon_b else ("the EARLIER run's" if got == canon_a else "not the new run's complete trace")
+            outs.append(rec)
+        return outs
+
+    with ThreadPoolExecutor(max_workers=3) as ex:
+        fk = [ex.submit(kill_one, c) for c in (1, 2)]
+        fr = ex.submit(rewrite_all)
+        kills = [f.result() for f in fk]
+        rew = fr.result()
+    for r in kills:
+        ctx.case(key=("killed-run", r["chains"]), nontrivial=r["seen"] > 0, sample={"chains": r["chains"], "progress_lines_seen": r["seen"], "trace_path_exists": r["exists"]})
+        ctx.count("killed_run:%s" % ("file-left" if r["exists"] else "no-file"))
+        if r["seen"] == 0:
+            ctx.log("killed-run scenario (%d chains): no sampling progress line seen before the time limit; nothing to conclude" % r["chains"])
+        elif r["res"] is not None and not all(o.startswith("E:") for o in r["res"]):
+            ctx.fail("C20:run:killed-while-sampling:trace-readable", "a %d-chain run killed while it was sampling (after %d progress lines) left a file at the trace path that the summary commands read without error (%s)" % (r["chains"], r["seen"], [o[:12] for o in r["res"]]),
+                     {"chains": r["chains"], "seed": seed, "outcomes": list(r["res"]), "input": open(in_file).read()})
+    if rew is None:
+        ctx.broken_tie("rewrite scenario: a reference run failed")
+        return
+    for rec in rew:
+        ctx.case(key=("rewrite-run", rec["k"]), nontrivial=True, sample={"space_per_file": rec["k"], "complete_trace_bytes": rec["L"], "exit": rec["rc"]})
+        ctx.count("rewritten_run")
+        if rec["which"] not in (None, "new-complete"):
+            ctx.fail("C20:run:interrupted-rewrite:stale-trace-readable", "re-running to a path that held a complete trace of an earlier run and running out of space after %d bytes leaves the summary commands reading a trace without error (%s) that is %s" % (rec["k"], [o[:12] for o in rec["res"]], rec["which"]),
+                     {"space_per_file": rec["k"], "seed_first_run": seed, "seed_second_run": seed + 1, "outcomes": list(rec["res"]), "input": open(in_file).read()})
+
+
 def run(ctx):
     coq.check_property_file(ctx)
     ctx.rule = (
@@ -396,6 +491,7 @@ def run(ctx):
         for tag, path, every, cuts in traces:
             check_trace(ctx, pool, path, tag, every, cuts)
     interrupted_runs(ctx, d)
+    killed_and_rewritten_runs(ctx, d)
     shutil.rmtree(d, ignore_errors=True)
     ctx.assumptions += [
         "CPython's unpickler, gzip.GzipFile and zlib behave as Model/Framing.v states (validated on every explored prefix, not proved)",
